@@ -188,6 +188,9 @@ def absPath (cwd p : String) : String := normpath (pathJoin cwd p)
 
 def endsWithL (suffix s : List Char) : Bool := suffix.reverse.isPrefixOf s.reverse
 
+/-- `os.path.normpath(config).endswith(".ini")` -/
+def hasIniExt (p : String) : Bool := endsWithL ['.', 'i', 'n', 'i'] (normpath p).toList
+
 /-! ## parsed `.ini` files -/
 
 /-- the options of one section, keys already lower-cased by `ConfigParser.optionxform` -/
